@@ -320,8 +320,9 @@ impl G {
 
     /// one top-level (or body) statement; may declare names
     fn stmt(&mut self, d: usize, top: bool) -> Vec<Value> {
-        let choice = self.rng.below(if top { 16 } else { 11 });
+        let choice = self.rng.below(if top { 18 } else { 12 });
         match choice {
+            11 | 17 => self.fn_value(d),
             0 => { let n = self.fresh("i"); let e = hide(tint(), self.int_expr(d)); self.declare(&n, tint()); vec![set(&n, e)] }
             1 => { let n = self.fresh("b"); let e = self.bool_expr(d); self.declare(&n, tbool()); vec![set(&n, hide(tbool(), e))] }
             2 => {
@@ -390,8 +391,8 @@ impl G {
                 vec![set(&n, e)]
             }
             10 => vec![mark(self.next_mark())],
-            11 | 12 => self.fn_decl(d),
-            13 => {
+            12 | 13 => self.fn_decl(d),
+            16 => {
                 let n = self.fresh("t");
                 let ty = ttup(vec![tint(), tstr()]);
                 let e = self.inhabitant(&ty, false);
@@ -414,6 +415,61 @@ impl G {
                 vec![set(&n, json!({"k": "map", "it": src, "f": f}))]
             }
         }
+    }
+
+    /// a function literal (int)->int that captures a visible non-constant int (or reads a cell) when there is one
+    fn fn_lit(&mut self) -> Value {
+        let ints = self.vars_of(&tint());
+        let cells = self.vars_of(&tmut(tint()));
+        let other = if !cells.is_empty() && self.rng.chance(1, 2) { json!({"k": "deref", "e": var(&self.pick(&cells))}) }
+                    else if !ints.is_empty() { var(&self.pick(&ints)) } else { int(3) };
+        let op = ["+", "-", "*", "&"][self.rng.below(4)];
+        json!({"k": "fn", "ps": [p("q", tint())], "r": tint(), "body": [ret(bin(op, var("q"), other))]})
+    }
+
+    /// a name bound to a function VALUE by a route other than `f := (..) -> T {..}`: through a tuple and a
+    /// destructuring, a block, an if-expression, an array of functions, a function-returning function
+    fn fn_value(&mut self, d: usize) -> Vec<Value> {
+        let ft = tfn(vec![tint()], tint());
+        let f = self.fresh("g");
+        let out = match self.rng.below(7) {
+            0 => {
+                let n = self.fresh("i");
+                let e = tup(vec![hide(tint(), self.int_expr(d.saturating_sub(1))), self.fn_lit()]);
+                let st = json!({"k": "destruct", "ns": [n.clone(), f.clone()], "e": e});
+                self.declare(&n, tint());
+                vec![st]
+            }
+            1 => vec![set(&f, block(vec![self.fn_lit()]))],
+            2 => vec![set(&f, json!({"k": "if", "c": hide(tbool(), self.bool_expr(1)), "t": block(vec![self.fn_lit()]), "f": block(vec![self.fn_lit()])}))],
+            3 => {
+                let a = self.fresh("fs");
+                vec![set(&a, arr(vec![self.fn_lit(), self.fn_lit()])), set(&f, json!({"k": "at", "e": var(&a), "i": int([0, 1, -1][self.rng.below(3)])}))]
+            }
+            4 => {
+                let mk = self.fresh("mk");
+                let lit = self.fn_lit();
+                vec![json!({"k": "fndecl", "n": mk, "ps": [p("w", tint())], "r": ft.clone(), "body": [
+                        ret(json!({"k": "fn", "ps": [p("q", tint())], "r": tint(), "body": [ret(bin("+", call(lit, vec![var("q")]), var("w")))]}))]}),
+                     set(&f, call(var(&mk), vec![self.int_expr(1)]))]
+            }
+            5 => {
+                let t = self.fresh("tf");
+                vec![set(&t, tup(vec![self.fn_lit(), int(1)])), set(&f, json!({"k": "tupat", "e": var(&t), "i": 0}))]
+            }
+            _ => {
+                let fs = self.vars_of(&ft);
+                if fs.is_empty() { vec![set(&f, block(vec![self.fn_lit()]))] }
+                else {
+                    // composition of an existing function with a literal
+                    let g = self.pick(&fs);
+                    let lit = self.fn_lit();
+                    vec![set(&f, block(vec![json!({"k": "fn", "ps": [p("q", tint())], "r": tint(), "body": [ret(call(var(&g), vec![call(lit, vec![var("q")])]))]})]))]
+                }
+            }
+        };
+        self.declare(&f, ft);
+        out
     }
 
     fn next_mark(&mut self) -> i64 {
